@@ -86,7 +86,7 @@ def proofs(tier, workroot):
     sp = importlib.util.spec_from_file_location('c04proofs', os.path.join(here, '..', 'C04', 'proofs.py'))
     c04 = importlib.util.module_from_spec(sp)
     sp.loader.exec_module(c04)
-    return list(PROOFS) + c04.proofs(tier, workroot)
+    return list(PROOFS) + [q for q in c04.proofs(tier, workroot) if q.name == 'uncrustify_file']      # only the driver proof (C04's own kernels stay with C04)
 
 sys.path.insert(0, os.path.join(os.path.dirname(os.path.abspath(__file__)), '..', '..', 'tools'))
 import replay_lib  # noqa: E402
